@@ -14,7 +14,9 @@ CONSTANTS MaxFrames, InitF
 
 Prologues == {"ok", "short", "bad", "banner"}
 \* well-framed requests
-Requests == {"hello", "list", "get", "get_badpath", "put_new", "put_cas_c1", "put_badhash", "put_badpath", "put_dir_badhash", "delete_c2", "delete_badpath"}
+\* (get_padded / get_smuggle: a Get whose frame is longer than its CBOR item - zero filler, resp. a complete Delete frame as
+\*  filler; a frame is consumed to its declared length, so both are plain Gets and the filler is never a request)
+Requests == {"hello", "list", "get", "get_padded", "get_smuggle", "get_badpath", "put_new", "put_cas_c1", "put_badhash", "put_badpath", "put_dir_badhash", "delete_c2", "delete_badpath"}
 \* pieces that are not a well-framed request
 Breakers == {"oversize_2p20p1", "oversize_u32max", "undecodable", "unknown_variant", "zero_len", "deep_nesting", "huge_inner_len",
              "eof_in_prefix", "eof_in_body", "put_content_eof", "bye"}
@@ -41,7 +43,7 @@ Frame == /\ st = "AwaitFrame"
               /\ todo' = Tail(todo)
               /\ CASE x = "hello" -> Rep("Hello") /\ UNCHANGED <<st, exit, f, conf>>
                    [] x = "list" -> Rep(<<"List", f, conf>>) /\ UNCHANGED <<st, exit, f, conf>>
-                   [] x = "get" -> Rep(IF f = "none" THEN "Error:not found" ELSE <<"Content", f>>) /\ UNCHANGED <<st, exit, f, conf>>
+                   [] x \in {"get", "get_padded", "get_smuggle"} -> Rep(IF f = "none" THEN "Error:not found" ELSE <<"Content", f>>) /\ UNCHANGED <<st, exit, f, conf>>
                    [] x \in {"get_badpath", "put_badpath", "delete_badpath"} -> Rep("Error:bad path") /\ UNCHANGED <<st, exit, f, conf>>
                    [] x = "put_new" ->       \* Put(f, expected = absent, content c2)
                         IF f = "none" THEN f' = "c2" /\ Rep(<<"Put", "committed", "c2">>) /\ UNCHANGED <<st, exit, conf>>
